@@ -10,6 +10,7 @@ use crate::refgrammar;
 use crate::refsem::Answer;
 use crate::space::*;
 use crate::subject::*;
+use digital_test_runner as dtr;
 use serde_json::json;
 use std::time::Instant;
 
@@ -98,7 +99,7 @@ fn singles(ls: &[Line]) -> Vec<Dev> {
             }
         }
         d.push(Dev::CrlfLine(li));
-        for c in ["", "# c", " \t", "#let i = 5;"] {
+        for c in ["", "# c", " \t", "#let i = 5;", "# größer als äöüß ÄÖÜ €€€€ 😀😀😀😀 ٣٣٣٣ ÿÿÿÿÿÿÿÿÿÿÿÿÿÿÿÿ"] {
             d.push(Dev::Insert(li, c));
         }
     }
@@ -117,7 +118,36 @@ struct Behaviour {
 }
 
 fn behaviour_n(text: &str, sigs: &[Sig], script: &[Step], max_rows: usize) -> Behaviour {
-    let tc = match load(text, sigs, DEFAULT_BUDGET) {
+    behaviour_via(text, sigs, script, max_rows, false)
+}
+
+/// `via_dig`: the text is the source of the only Testcase of a .dig document with the same pins
+fn load_via_dig(text: &str, sigs: &[Sig]) -> Result<dtr::TestCase, ObsInit> {
+    use crate::digxml::{self, Pin, PinKind};
+    let pins: Vec<Pin> = sigs
+        .iter()
+        .map(|s| {
+            let p = Pin::new(if s.is_in() { PinKind::In } else { PinKind::Out }, &s.name).bits(&format!("{}", s.bits));
+            match s.default() {
+                Some(V::Num(n)) => p.default(digxml::Default::Value(n)),
+                Some(_) => p.default(digxml::Default::Z),
+                None => p,
+            }
+        })
+        .collect();
+    let doc = digxml::render(&pins, &[digxml::TestDesc { label: Some("t".into()), source: text.to_string(), extra: vec![] }]);
+    match guard(DEFAULT_BUDGET, move || dtr::dig::File::parse(&doc).map_err(|e| ObsInit::ParseErr(miette_chain(&e))).and_then(|f| f.load_test(0).map_err(|e| match e {
+        dtr::errors::LoadTestError::ParseError(p) => ObsInit::ParseErr(format!("{p:?}")),
+        other => ObsInit::BindErr(miette_chain(&other)),
+    }))) {
+        Ok(r) => r,
+        Err(Caught::Panic(s)) => Err(ObsInit::Panic(s)),
+        Err(Caught::Watchdog) => Err(ObsInit::Watchdog),
+    }
+}
+
+fn behaviour_via(text: &str, sigs: &[Sig], script: &[Step], max_rows: usize, via_dig: bool) -> Behaviour {
+    let tc = match if via_dig { load_via_dig(text, sigs) } else { load(text, sigs, DEFAULT_BUDGET) } {
         Ok(tc) => tc,
         Err(ObsInit::ParseErr(_)) => return Behaviour { verdict: "rejected by from_str".into(), stat: vec![], dynamic: vec![], log: vec![] },
         Err(ObsInit::BindErr(_)) => return Behaviour { verdict: "rejected by with_signals".into(), stat: vec![], dynamic: vec![], log: vec![] },
@@ -178,7 +208,18 @@ fn examine(st: &mut Stats, u: u64, k: usize, variant: u64, ls: &[Line], layouts:
             });
         }
         let mut mism: Option<String> = None;
-        if b.verdict != b0.verdict {
+        // the same rewritten text as the source of a test in a .dig document (every layout that
+        // involves a carriage return, every fifth of the others)
+        let cr = lay.iter().any(|d| matches!(d, Dev::CrlfAll | Dev::CrlfLine(_)) || matches!(d, Dev::Gap(_, _, g) | Dev::TrailingSpace(_, g) | Dev::Indent(_, g) if g.contains('\r')) || matches!(d, Dev::Insert(_, c) if c.contains('\r')));
+        if accepted && (cr || li % 5 == 0) {
+            let bd = behaviour_via(&laid.text, sigs, script, max_rows, true);
+            st.witness("rewritten_text_loaded_from_a_dig_document");
+            if bd != b {
+                mism = Some(format!("dig: loaded as the source of a test in a .dig document the rewritten text behaves differently ({}) than parsed directly ({})", bd.verdict, b.verdict));
+            }
+        }
+        if mism.is_some() {
+        } else if b.verdict != b0.verdict {
             mism = Some(format!("verdict: canonical layout is {}, rewritten text is {}", b0.verdict, b.verdict));
         } else if accepted {
             for (what, x0, x) in [("dynamic", &b0.dynamic, &b.dynamic), ("static", &b0.stat, &b.stat)] {
@@ -226,7 +267,11 @@ fn examine(st: &mut Stats, u: u64, k: usize, variant: u64, ls: &[Line], layouts:
                 })
                 .collect();
             st.violation(&format!("{class} changes under [{}]", kinds.join(" + ")), (lay.len() as u64) << 56 | (k as u64) << 50 | u << 20 | li as u64 & 0xfffff, format!("canonical text:\n{}\nrewritten text ({lay:?}):\n{}\n{m}", base.text, laid.text), || {
-                json!({"kind": "layout", "canonical": base.text, "text": laid.text, "signals": sigs_json(sigs), "expected": [format!("same behaviour as the canonical layout: {}", b0.verdict)], "observed": [format!("{} / differs from canonical ({})", b.verdict, b0.verdict)]})
+                if m.starts_with("dig") {
+                    json!({"kind": "layout", "via_dig": true, "canonical": base.text, "text": laid.text, "signals": sigs_json(sigs), "expected": ["the same behaviour whether the text is parsed directly or loaded as the source of a test in a .dig document"], "observed": ["differs when loaded from a .dig document"]})
+                } else {
+                    json!({"kind": "layout", "canonical": base.text, "text": laid.text, "signals": sigs_json(sigs), "expected": [format!("same behaviour as the canonical layout: {}", b0.verdict)], "observed": [format!("{} / differs from canonical ({})", b.verdict, b0.verdict)]})
+                }
             });
         }
     }
@@ -306,6 +351,8 @@ pub fn run(tier: Tier, seed: u64) -> i32 {
             }
             layouts.push((0..ls.len()).map(|li| Dev::Insert(li, "")).collect());
             layouts.push((0..ls.len()).map(|li| Dev::Insert(li, "#let i = 5;")).collect());
+            layouts.push((0..ls.len()).map(|li| Dev::Insert(li, "# ä€😀")).collect());
+            layouts.push(vec![Dev::Insert(0, "# größer als äöüß ÄÖÜ €€€€ 😀😀😀😀 ٣٣٣٣ ÿÿÿÿÿÿÿÿÿÿÿÿÿÿÿÿ")]);
             layouts.push((0..ls.len()).map(|li| Dev::TrailingSpace(li, " \r")).collect());
             layouts.push((0..ls.len()).map(|li| Dev::Indent(li, "\t ")).collect());
             layouts.push((1..ls.len()).map(|li| Dev::TrailingComment(li, "# c")).collect());
@@ -321,7 +368,7 @@ pub fn run(tier: Tier, seed: u64) -> i32 {
         seed,
         rule: "every program of the space (and two malformed variants of each) x every set of at most 2 layout deviations: each inter-token gap -> {two spaces, tab, ' \\r', '\\r ', tab-space-tab, nothing (only where the reference lexer still reads the same two tokens)}, indentation, trailing blank space, '#' comment appended to a line after the header, blank/comment line inserted anywhere after the header, CRLF on one line or all, no final newline, each literal -> every other radix spelling; plus long programs of 9..90 short rows under one deviation on one line / on every line / CRLF throughout; metamorphic comparison with the canonical layout; every rewriting is non-trivial".into(),
         assumptions: vec!["no reference semantics: only pairwise equality of verdict, rows (static and dynamic) and the vectors the driver was handed; which token pairs may be joined is decided by the reference lexer (refgrammar::lex)".into()],
-        required_witnesses: vec!["accepted_program", "rejected_program", "gap_removed", "blank_space_changed", "literal_in_another_radix", "comment_appended", "line_inserted", "crlf", "no_final_newline", "long_program"],
+        required_witnesses: vec!["accepted_program", "rejected_program", "gap_removed", "blank_space_changed", "literal_in_another_radix", "comment_appended", "line_inserted", "crlf", "no_final_newline", "long_program", "rewritten_text_loaded_from_a_dig_document"],
         exhaustive_note: "all programs x all rewritings within the bounds".into(),
         e1: false,
     };
@@ -335,5 +382,9 @@ pub fn replay_layout(j: &serde_json::Value) -> Vec<String> {
     let max_rows = if canonical.lines().count() > 20 { 400 } else { 40 };
     let b0 = behaviour_n(canonical, &sigs, &script, max_rows);
     let b = behaviour_n(j["text"].as_str().unwrap_or(""), &sigs, &script, max_rows);
+    if j["via_dig"].as_bool().unwrap_or(false) {
+        let bd = behaviour_via(j["text"].as_str().unwrap_or(""), &sigs, &script, max_rows, true);
+        return vec![if bd == b { "same behaviour when loaded from a .dig document".to_string() } else { "differs when loaded from a .dig document".to_string() }];
+    }
     vec![if b == b0 { "same behaviour as the canonical layout".to_string() } else { format!("{} / differs from canonical ({})", b.verdict, b0.verdict) }]
 }
